@@ -1,10 +1,11 @@
-import DaskModel.Lemmas.Truthful
+import DaskModel.Lemmas.TruthfulPaths
+import DaskModel.Props.C45
 /-! # C41 — known divisions always describe the partitions truthfully (theorems)
 
 `Truthful key divs parts` (Lemmas/Truthful.lean) is the statement's predicate. One theorem per
 construction path that can report known divisions. -/
 namespace Dask.C41
-open Dask.Divs
+open Dask.Divs Dask.Repart Dask.SDL Dask.C45
 
 /-- **Filtering** keeps known divisions truthful (`Filter._divisions` forwards the frame's divisions). -/
 theorem filter_preserves {α : Type} (key : α → Nat) (divs : List Nat) (parts : List (List α))
@@ -28,7 +29,206 @@ theorem partitionwise_subset_preserves {α : Type} (key : α → Nat) (divs : Li
     Truthful key divs (parts.map f) :=
   h.map f fun p r hr => ⟨r, hf p r hr, rfl⟩
 
+/-- **truthfulB_iff** (re-exported): the executable oracle used by the tie decides exactly `Truthful` -/
+theorem truthfulB_decides (divs : List Nat) (parts : List (List Nat)) :
+    truthfulB divs parts = true ↔ Truthful (fun k => k) divs parts := truthfulB_iff divs parts
+
+
+/-- every element of a strictly increasing list is `≤` its last element -/
+theorem le_last_of_strict (bs : List Nat) (l : Nat) (hp : bs.Pairwise (· < ·)) (hl : bs.getLast? = some l) :
+    ∀ a ∈ bs, a ≤ l :=
+  le_last_of_mono bs l (hp.imp (fun h => Nat.le_of_lt h)) hl
+
+/-- in a strictly increasing list only the last position holds the last value -/
+theorem idx_of_last (bs : List Nat) (l : Nat) (hp : bs.Pairwise (· < ·)) (hl : bs.getLast? = some l)
+    (j : Nat) (hj : bs[j]? = some l) : j + 1 = bs.length := by
+  obtain ⟨hjlt, hje⟩ := List.getElem?_eq_some_iff.mp hj
+  rcases Nat.lt_or_ge (j + 1) bs.length with hlt | hge
+  · exfalso
+    have hlast : bs[bs.length - 1]? = some l := by rw [← List.getLast?_eq_getElem?]; exact hl
+    obtain ⟨hl1, hl2⟩ := List.getElem?_eq_some_iff.mp hlast
+    have := (List.pairwise_iff_getElem.mp hp) j (bs.length - 1) hjlt hl1 (by omega)
+    omega
+  · omega
+
+/-- **from_pandas_truthful**: partitions cut at the locations planned by `sorted_division_locations`
+    are described truthfully by the planned divisions — for every sorted frame, both modes. -/
+theorem from_pandas_truthful {α : Type} (key : α → Nat) (rows : List α) (m : Mode) (divs locs : List Nat)
+    (hs : Sorted (rows.map key)) (h : sdl (rows.map key) m = some (divs, locs)) :
+    Truthful key divs (cut rows locs) := by
+  have hseq : ∀ (t : Nat) (r : α), rows[t]? = some r → (rows.map key)[t]? = some (key r) := by
+    intro t r ht; simp [List.getElem?_map, ht]
+  obtain ⟨h0, hlast, hpw⟩ := sdl_locations_strict hs h
+  have hval := sdl_division_is_value_at_location hs h
+  have hfo := sdl_boundary_first_occurrence hs h
+  have hlen : divs.length = locs.length := hval.length_eq
+  have hlocs_pos : 0 < locs.length := by
+    cases locs with
+    | nil => simp at h0
+    | cons _ _ => simp
+  have hle := le_last_of_strict locs _ hpw hlast
+  have hmaplen : (rows.map key).length = rows.length := List.length_map _
+  rw [cut_eq_chunks]
+  refine ⟨by rw [chunks_length]; omega, ?_, ?_⟩
+  · -- divisions sorted
+    rw [List.pairwise_iff_getElem]
+    intro i j hi hj hij
+    have hil : i < locs.length := by omega
+    have hjl : j < locs.length := by omega
+    have hli := List.getElem?_eq_getElem hil
+    have hlj := List.getElem?_eq_getElem hjl
+    have hlt : locs[i] < locs[j] := (List.pairwise_iff_getElem.mp hpw) i j hil hjl hij
+    have hjle : locs[j] ≤ (rows.map key).length := hle _ (List.getElem_mem hjl)
+    have hRi := hval.get i divs[i] locs[i] (List.getElem?_eq_getElem hi) hli
+    have hRj := hval.get j divs[j] locs[j] (List.getElem?_eq_getElem hj) hlj
+    rw [if_neg (by omega)] at hRi
+    split at hRj
+    · rename_i hje
+      have hlastseq : (rows.map key)[(rows.map key).length - 1]? = some divs[j] := by
+        rw [← List.getLast?_eq_getElem?]; exact hRj
+      exact sorted_get_le hs (by omega) hRi hlastseq
+    · exact sorted_get_le hs (Nat.le_of_lt hlt) hRi hRj
+  · intro i p lo hi hp hlo hhi r hr
+    obtain ⟨a, b, ha, hb, rfl⟩ := (chunks_getElem? rows locs i p).mp hp
+    obtain ⟨t, hat, htb, hrt⟩ := mem_pySlice rows a b r hr
+    have hkt := hseq t r hrt
+    have hab : a < b := by omega
+    have hble : b ≤ (rows.map key).length := hle b (List.mem_of_getElem? hb)
+    have hRa := hval.get i lo a hlo ha
+    rw [if_neg (by omega)] at hRa
+    refine ⟨sorted_get_le hs hat hRa hkt, ?_⟩
+    have hRb := hval.get (i + 1) hi b hhi hb
+    split at hRb
+    · rename_i hbe
+      right
+      have hidx := idx_of_last locs _ hpw hlast (i + 1) (by rw [hb, hbe])
+      refine ⟨by rw [chunks_length]; omega, ?_⟩
+      have hlastseq : (rows.map key)[(rows.map key).length - 1]? = some hi := by
+        rw [← List.getLast?_eq_getElem?]; exact hRb
+      exact sorted_get_le hs (by omega) hkt hlastseq
+    · rename_i hbne
+      left
+      obtain ⟨v, hv, hbefore⟩ := hfo b (List.mem_of_getElem? hb) (by omega) hbne
+      rw [hRb] at hv
+      cases hv
+      obtain ⟨w, hw, hwv⟩ := hbefore t htb
+      rw [hkt] at hw
+      cases hw
+      exact hwv
+
+
+
+/-- **partitions_truthful**: selecting partitions in increasing order (`df.partitions[sel]`, `get_partition`,
+    the partition pruning of `.loc`) keeps the divisions truthful. -/
+theorem partitions_truthful {α : Type} (key : α → Nat) (divs : List Nat) (parts : List (List α))
+    (sel : List Nat) (d' : List Nat) (ps' : List (List α))
+    (hsel : sel.Pairwise (· < ·)) (h : Truthful key divs parts)
+    (hd : partitionsDivs divs sel = some d') (hp : partitionsParts parts sel = some ps') :
+    Truthful key d' ps' := by
+  obtain ⟨hlen, hsorted, hrows⟩ := h
+  unfold partitionsDivs at hd
+  simp only [Option.bind_eq_bind, Option.bind_eq_some_iff, Option.pure_def, Option.some.injEq] at hd
+  obtain ⟨lastSel, hlast, ds, hds, dl, hdl, rfl⟩ := hd
+  unfold partitionsParts at hp
+  obtain ⟨hdslen, hdsget⟩ := mapM_getElem? _ sel ds hds
+  obtain ⟨hpslen, hpsget⟩ := mapM_getElem? _ sel ps' hp
+  have hsel_pos : 0 < sel.length := by
+    cases sel with
+    | nil => simp at hlast
+    | cons _ _ => simp
+  have hlastidx : sel[sel.length - 1]? = some lastSel := by rw [← List.getLast?_eq_getElem?]; exact hlast
+  -- value of d' at a position
+  have hd'get : ∀ (j : Nat), j < sel.length → ∃ s, sel[j]? = some s ∧ (ds ++ [dl])[j]? = divs[s]? ∧ (ds ++ [dl])[j]? ≠ none := by
+    intro j hj
+    have hs := List.getElem?_eq_getElem hj
+    obtain ⟨y, hy, hfy⟩ := hdsget j _ hs
+    refine ⟨sel[j], hs, ?_, ?_⟩
+    · rw [List.getElem?_append_left (by omega), hy, hfy]
+    · rw [List.getElem?_append_left (by omega), hy]; simp
+  have hd'last : (ds ++ [dl])[sel.length]? = some dl := by
+    rw [List.getElem?_append_right (by omega)]; simp [hdslen]
+  have hmono : ∀ (i j a b : Nat), i < j → sel[i]? = some a → sel[j]? = some b → a < b := by
+    intro i j a b hij ha hb
+    obtain ⟨hi', rfl⟩ := List.getElem?_eq_some_iff.mp ha
+    obtain ⟨hj', rfl⟩ := List.getElem?_eq_some_iff.mp hb
+    exact (List.pairwise_iff_getElem.mp hsel) i j hi' hj' hij
+  have hdiv_le : ∀ (a b x y : Nat), a ≤ b → divs[a]? = some x → divs[b]? = some y → x ≤ y := by
+    intro a b x y hab hx hy
+    rcases Nat.eq_or_lt_of_le hab with rfl | hlt
+    · rw [hx] at hy; cases hy; exact Nat.le_refl _
+    · obtain ⟨ha', rfl⟩ := List.getElem?_eq_some_iff.mp hx
+      obtain ⟨hb', rfl⟩ := List.getElem?_eq_some_iff.mp hy
+      exact (List.pairwise_iff_getElem.mp hsorted) a b ha' hb' hlt
+  refine ⟨by simp [hpslen, hdslen], ?_, ?_⟩
+  · -- sorted
+    rw [List.pairwise_iff_getElem]
+    intro i j hi hj hij
+    have hlen' : (ds ++ [dl]).length = sel.length + 1 := by simp [hdslen]
+    have hi' : i < sel.length := by omega
+    obtain ⟨si, hsi, hvi, _⟩ := hd'get i hi'
+    rw [List.getElem?_eq_getElem hi] at hvi
+    rcases Nat.lt_or_ge j sel.length with hjl | hjl
+    · obtain ⟨sj, hsj, hvj, _⟩ := hd'get j hjl
+      rw [List.getElem?_eq_getElem hj] at hvj
+      exact hdiv_le si sj _ _ (Nat.le_of_lt (hmono i j si sj hij hsi hsj)) hvi.symm hvj.symm
+    · have hje : j = sel.length := by omega
+      subst hje
+      have : (ds ++ [dl])[sel.length] = dl := by
+        have := List.getElem?_eq_getElem hj
+        rw [hd'last] at this; exact (Option.some.inj this).symm
+      rw [this]
+      have hsle : si ≤ lastSel := by
+        rcases Nat.eq_or_lt_of_le (show i ≤ sel.length - 1 by omega) with he | hl
+        · rw [he] at hsi; rw [hsi] at hlastidx; cases hlastidx; exact Nat.le_refl _
+        · exact Nat.le_of_lt (hmono i (sel.length - 1) si lastSel hl hsi hlastidx)
+      exact hdiv_le si (lastSel + 1) _ _ (by omega) hvi.symm hdl
+  · intro j p lo hi hpj hlo hhi r hr
+    have hjlt : j < ps'.length := (List.getElem?_eq_some_iff.mp hpj).1
+    have hj : j < sel.length := by omega
+    obtain ⟨sj, hsj, hvj, _⟩ := hd'get j hj
+    obtain ⟨y, hy, hfy⟩ := hpsget j sj hsj
+    rw [hpj] at hy; cases hy
+    rw [hlo] at hvj
+    -- bounds of the source partition
+    have hsjlt : sj < parts.length := (List.getElem?_eq_some_iff.mp hfy).1
+    have hhi_src := List.getElem?_eq_getElem (l := divs) (i := sj + 1) (by omega)
+    obtain ⟨hlow, hup⟩ := hrows sj p lo _ hfy hvj.symm hhi_src r hr
+    refine ⟨hlow, ?_⟩
+    rcases Nat.lt_or_ge (j + 1) sel.length with hnl | hl
+    · -- not the last selected partition
+      obtain ⟨sn, hsn, hvn, _⟩ := hd'get (j + 1) hnl
+      rw [hhi] at hvn
+      have hlt := hmono j (j + 1) sj sn (by omega) hsj hsn
+      obtain ⟨pn, _, hfn⟩ := hpsget (j + 1) sn hsn
+      have hsnlt : sn < parts.length := (List.getElem?_eq_some_iff.mp hfn).1
+      left
+      rcases hup with h1 | ⟨h2, _⟩
+      · exact Nat.lt_of_lt_of_le h1 (hdiv_le (sj + 1) sn _ _ (by omega) hhi_src hvn.symm)
+      · omega
+    · -- the last selected partition
+      have hje : j + 1 = sel.length := by omega
+      have hsje : sj = lastSel := by
+        have : sel[j]? = sel[sel.length - 1]? := by congr 1; omega
+        rw [hsj, hlastidx] at this; exact Option.some.inj this
+      subst hsje
+      rw [hje, hd'last] at hhi
+      have hidl : dl = hi := Option.some.inj hhi
+      rw [hdl] at hhi_src
+      have hval : divs[sj + 1] = hi := by rw [← hidl]; exact (Option.some.inj hhi_src).symm
+      rw [hval] at hup
+      rcases hup with h1 | ⟨_, h2⟩
+      · left; exact h1
+      · right; exact ⟨by omega, h2⟩
+
+/-- without the ordering hypothesis the claim fails: `partitions[[1, 0]]` reports unsorted divisions -/
+example : partitionsDivs [0, 5, 9] [1, 0] = some [5, 0, 5] := by decide
+example : partitionsDivs [0, 5, 9, 12] [0, 2] = some [0, 9, 12] := by decide
+
+
 /-! non-vacuity -/
+example : sdl ([(0 : Nat), 0, 1, 1, 1, 1, 2, 2, 4, 5, 5, 5, 5].map id) (.npartitions 4) =
+    some ([0, 1, 2, 5, 5], [0, 2, 6, 9, 13]) := by decide
+
 example : Truthful (fun (k : Nat) => k) [0, 3, 5, 5] [[0, 2, 2], [3, 4], [5, 5]] := by
   refine ⟨rfl, by decide, ?_⟩
   intro i p lo hi hp hlo hhi r hr
